@@ -14,8 +14,12 @@ RULE = ("grammar-generated programs (depth <= 7) with random identifier and func
         "execution and across contexts; non-trivial = program with >= 2 distinct names; distinct = distinct source")
 ASSUMPTIONS = ["variables are bound to an int and functions to a variadic host function in context (b)"]
 
-VARS = ["a", "b", "c", "x", "y", "m", "lst", "req", "size", "v_1", "_u", "Foo", "has_it", "inn"]
-FNS = ["f", "g", "size", "contains", "startsWith", "matches", "int", "string", "max", "myFn", "is_ok", "h1_v", "va", "getHours", "lookup"]
+VARS = ["a", "b", "c", "x", "y", "m", "lst", "req", "size", "v_1", "_u", "Foo", "has_it", "inn",
+        # names that differ only in case, by a prefix / suffix, or from a function name by case: a report that
+        # normalises, sorts or de-duplicates names must keep them apart
+        "A", "X", "foo", "FOO", "Size", "xx", "x_", "_x", "a1", "A1", "lsT", "Req"]
+FNS = ["f", "g", "size", "contains", "startsWith", "matches", "int", "string", "max", "myFn", "is_ok", "h1_v", "va", "getHours", "lookup",
+       "F", "G", "myfn", "MYFN", "Lookup", "ff", "f_", "is_OK"]
 
 
 def names_in(e, vars_out, fns_out):
@@ -78,7 +82,15 @@ def run_unit(unit, drv, res, seed, tier):
     rng = rng_for(seed, 'C19', unit[1])
     items = []
     for _ in range(900):
-        g = UntypedGen(rng, idents=rng.sample(VARS, rng.randint(2, 6)), funcs=rng.sample(FNS, rng.randint(2, 6)))
+        idents = rng.sample(VARS, rng.randint(2, 6))
+        funcs = rng.sample(FNS, rng.randint(2, 6))
+        if rng.random() < 0.35:
+            # force a near-duplicate pair into the pool
+            a = rng.choice(["a", "x", "foo", "size", "a1", "lst", "req"])
+            idents = [a, {"a": "A", "x": "X", "foo": "FOO", "size": "Size", "a1": "A1", "lst": "lsT", "req": "Req"}[a]] + idents[:2]
+            b = rng.choice(["f", "g", "myFn", "lookup", "is_ok"])
+            funcs = [b, {"f": "F", "g": "G", "myFn": "myfn", "lookup": "Lookup", "is_ok": "is_OK"}[b]] + funcs[:2]
+        g = UntypedGen(rng, idents=idents, funcs=funcs)
         e = g.gen(rng.choice([1, 2, 3, 4, 5, 6, 7]))
         e = add_dots(e, rng)
         try:
